@@ -39,6 +39,13 @@ Definition recomp_ops : list (string * handler) :=
         match vbool st, rv_graph g, rv_censor c, rv_graph o with
         | Some s, Some G, Some C, Some Og => Some (ofbool (chk_maximal rpay (rpay_join mode) (N.to_nat k) s G C Og))
         | _, _, _, _ => None end | _ => None end);
+    ("chk.c09.exts"%string, fun a => match a with [VN k; st; g; c; o] =>
+        match vbool st, rv_graph g, rv_censor c, rv_graph o with
+        | Some s, Some G, Some C, Some Og => Some (ofbool (chk_exts rpay (N.to_nat k) s G C Og))
+        | _, _, _, _ => None end | _ => None end);
+    ("chk.c09.no_panic"%string, fun a => match a with [VN k; st; g] =>
+        match vbool st, rv_graph g with
+        | Some s, Some G => Some (ofbool (rvalidb rpay (N.to_nat k) s G)) | _, _ => None end | _ => None end);
     ("chk.c09.no_dangling"%string, fun a => match a with [VN k; st; o] =>
         match vbool st, rv_graph o with
         | Some s, Some Og => Some (ofbool (chk_no_dangling rpay (N.to_nat k) s Og)) | _, _ => None end | _ => None end);
